@@ -32,6 +32,17 @@ CHECKS = {
              "records: no invocation on a view recording the handler as finished; retry == recorded attempts; purge / "
              "last-handled exactly at the closing write; at most one success per cycle outside the stated carve-outs.",
         design_ref='DESIGN.md §6 C02'),
+    'C07': dict(
+        technique="stateless model checking of the implementation: exhaustive grid of echo/foreign-event release instants "
+                  "around the consistency timeout plus deviation-bounded schedule search, closed loop with a fake API server",
+        text="Two- and three-step handling cycles run in the real worker/processing/patching loop; 0-2 foreign writes land "
+             "between the operator's view and its PATCH; the foreign events and the echo of the PATCH are released by the "
+             "simulated network at every pair of instants on a grid spanning the consistency timeout, after idle gaps that "
+             "keep or retire the per-object worker; a deviation-bounded search (late responses, timers before deliveries, "
+             "reordered user edits) runs on top. Oracle: no change handler runs on a version older than the version returned "
+             "by the worker's own latest PATCH before timeout seconds have passed since that response; raw-event handlers "
+             "run at the delivery instant.",
+        design_ref='DESIGN.md §6 C07'),
 }
 
 
